@@ -1193,3 +1193,165 @@ func phiLeaves(v ssa.Value) []ssa.Value {
 	walk(v)
 	return out
 }
+
+
+// allowedVia: who-may-call / who-may-write tables name the functions that may do something. A behaviour-preserving
+// extract-method moves the access into a new unexported helper; that helper is as allowed as its callers are: fn is
+// allowed if it is in the table, or if it is unexported, has at least one call site, and every call site lies in a
+// function that is allowed (depth-bounded). The reason string says through whom.
+func allowedVia(c *Ctx, allowed map[*ssa.Function]string, fn *ssa.Function) (string, bool) {
+	return allowedViaDepth(c, allowed, fn, 3, map[*ssa.Function]bool{})
+}
+
+func allowedViaDepth(c *Ctx, allowed map[*ssa.Function]string, fn *ssa.Function, depth int, seen map[*ssa.Function]bool) (string, bool) {
+	if fn == nil {
+		return "", false
+	}
+	if why, ok := allowed[fn]; ok {
+		return why, true
+	}
+	if depth == 0 || seen[fn] {
+		return "", false
+	}
+	seen[fn] = true
+	// closures are as allowed as the function they are written in
+	if fn.Parent() != nil {
+		if why, ok := allowedViaDepth(c, allowed, fn.Parent(), depth, seen); ok {
+			return why + " (closure)", true
+		}
+		return "", false
+	}
+	if fn.Object() == nil || fn.Object().Exported() {
+		return "", false
+	}
+	sites := c.callSites(func(cc *ssa.CallCommon) bool { return callsFunc(cc, fn) })
+	n := 0
+	via := ""
+	for _, s := range sites {
+		if c.IsMockFunc(s.Fn) {
+			continue
+		}
+		n++
+		why, ok := allowedViaDepth(c, allowed, s.Fn, depth-1, seen)
+		if !ok {
+			return "", false
+		}
+		via = why
+	}
+	if n == 0 {
+		return "", false
+	}
+	return "helper called only from allowed functions (" + via + ")", true
+}
+
+
+// equivValue: a and b are computed by the same expression over the same roots (two loads of namespace.Users[i], written
+// twice in the source, are two SSA values). Stores between the two evaluations are not considered: use only where the
+// function does not write the structure the expression reads.
+func equivValue(a, b ssa.Value, depth int) bool {
+	a, b = stripValue(a), stripValue(b)
+	if a == b {
+		return true
+	}
+	if depth == 0 || a == nil || b == nil {
+		return false
+	}
+	switch x := a.(type) {
+	case *ssa.UnOp:
+		y, ok := b.(*ssa.UnOp)
+		return ok && x.Op == y.Op && equivValue(x.X, y.X, depth-1)
+	case *ssa.FieldAddr:
+		y, ok := b.(*ssa.FieldAddr)
+		return ok && x.Field == y.Field && equivValue(x.X, y.X, depth-1)
+	case *ssa.Field:
+		y, ok := b.(*ssa.Field)
+		return ok && x.Field == y.Field && equivValue(x.X, y.X, depth-1)
+	case *ssa.IndexAddr:
+		y, ok := b.(*ssa.IndexAddr)
+		return ok && equivValue(x.X, y.X, depth-1) && equivValue(x.Index, y.Index, depth-1)
+	case *ssa.Const:
+		y, ok := b.(*ssa.Const)
+		return ok && x.Value != nil && y.Value != nil && x.Value.ExactString() == y.Value.ExactString()
+	}
+	return false
+}
+
+
+// leavesThroughCalls is phiLeaves that also looks through results of module functions: a leaf that is result #i of a
+// static call to a function with a body is replaced by the leaves of that function's returned values (depth-bounded);
+// a leaf that is one of the callee's parameters is replaced by the call's argument.
+func leavesThroughCalls(c *Ctx, v ssa.Value, depth int) []ssa.Value {
+	var out []ssa.Value
+	for _, l := range phiLeaves(v) {
+		var call *ssa.Call
+		idx := 0
+		switch x := l.(type) {
+		case *ssa.Extract:
+			if cl, ok := x.Tuple.(*ssa.Call); ok {
+				call, idx = cl, x.Index
+			}
+		case *ssa.Call:
+			call = x
+		}
+		if call == nil || depth == 0 {
+			out = append(out, l)
+			continue
+		}
+		f := staticCallee(&call.Call)
+		if f == nil || !c.InModule(f) || len(f.Blocks) == 0 || idx >= f.Signature.Results().Len() {
+			out = append(out, l)
+			continue
+		}
+		any := false
+		for _, ret := range returnsOf(f) {
+			vals, zero := retValues(ret, idx)
+			if zero {
+				continue
+			}
+			for _, rv := range vals {
+				for _, sub := range leavesThroughCalls(c, rv, depth-1) {
+					if p, ok := sub.(*ssa.Parameter); ok {
+						for k, fp := range f.Params {
+							if fp == p && k < len(call.Call.Args) {
+								sub = stripValue(call.Call.Args[k])
+							}
+						}
+					}
+					out = append(out, sub)
+					any = true
+				}
+			}
+		}
+		if !any {
+			out = append(out, l)
+		}
+	}
+	return out
+}
+
+
+// eqConstEdges returns the If edges on which `x == k` is known to hold for a value x accepted by isX: the true edge of
+// `x == k` and the false edge of `x != k` (operands in either order).
+func eqConstEdges(fn *ssa.Function, isX func(v ssa.Value) bool, k int64) []CondEdge {
+	var out []CondEdge
+	allInstrs(fn, func(in ssa.Instruction) {
+		b, ok := in.(*ssa.BinOp)
+		if !ok || (b.Op != token.EQL && b.Op != token.NEQ) {
+			return
+		}
+		x, y := b.X, b.Y
+		if _, isC := constInt(x); isC {
+			x, y = y, x
+		}
+		kv, ok := constInt(y)
+		if !ok || kv != k || !isX(stripValue(x)) {
+			return
+		}
+		for _, e := range condEdges(b) {
+			if e.Val == (b.Op == token.EQL) {
+				out = append(out, e)
+			}
+		}
+	})
+	return out
+}
